@@ -157,16 +157,18 @@ inline bool hasString(const MValue& m) {
 
 inline void run(Ctx& C) {
   const bool T = C.thorough();
-  int N = atoi(C.opt("nodes", T ? "4" : "3").c_str());
+  int N = atoi(C.opt("nodes", "3").c_str());
   TreeGen G;
   G.leavesTop = leafAlphabet(false);
   G.leavesDeep = leafAlphabet(true);
-  G.deepFrom = T ? 2 : 3;
+  G.deepFrom = 3;
   G.keys = keyAlphabet();
   G.dupKeys = true;
+  bool stop = false;
+  G.abort = &stop;
   uint64_t texts = 0;
-  G.upTo(N, [&](const MValue& tree) {
-    if (C.expired()) return;
+  auto perTree = [&](const MValue& tree) {
+    if (C.expired()) { stop = true; return; }
     if (!C.take()) return;
     refjson::PrintOpt base;
     std::string text = refjson::printDoc(tree, base);
@@ -232,7 +234,16 @@ inline void run(Ctx& C) {
       }
     }
     C.end();
-  });
+  };
+  G.upTo(N, perTree);
+  int deepN = atoi(C.opt("deep-nodes", T ? "4" : "0").c_str());
+  if (deepN > N) {
+    // larger trees: the reduced leaf alphabet everywhere below the root
+    G.deepFrom = 1;
+    for (int k = N + 1; k <= deepN; k++) G.exact(k, 0, perTree);
+    C.bound("plus all trees with " + std::to_string(N + 1) + ".." + std::to_string(deepN) + " nodes whose leaves below the root come from the " +
+            std::to_string(G.leavesDeep.size()) + "-leaf reduced alphabet");
+  }
   C.metrics["texts_parsed"] += double(texts);
   C.bound("all trees with <= " + std::to_string(N) + " nodes over " + std::to_string(G.leavesTop.size()) + " leaves (" +
           std::to_string(G.leavesDeep.size()) + " at depth >= " + std::to_string(G.deepFrom) +
